@@ -349,7 +349,19 @@ fn run_case(c: &Case, assets_v: &[assets::Asset], pool: &IngredientPool) -> Res 
     if direct.claim_alg != after.claim_alg {
         viols.push(("hash-alg-not-preserved".to_string(), format!("k={}: claim alg of the direct sign {:?}, of the restored builder's sign {:?} (definition hash_alg {:?})", c.cfg.k, direct.claim_alg, after.claim_alg, c.def.hash_alg)));
     }
-    if direct.report != after.report {
+    // Ingredients taken from repository fixtures (stores written by older producers) differ after a restore in
+    // thumbnail references/resources for the already-listed thumbnail reason; they are driven for the *nested
+    // manifests*: judged on sign success (above), validation state/codes and the set of manifests only.
+    let fixture_ing = c.def.ingredients.iter().any(|g| pool.items.get(g.pool).map(|i| i.name.starts_with("fixture:")).unwrap_or(false));
+    if fixture_ing {
+        let nm = |r: &Value| r.get("manifests").and_then(|m| m.as_object()).map(|m| m.len()).unwrap_or(0);
+        if nm(&direct.report) != nm(&after.report) {
+            viols.push((format!("{}|fixture-ingredient|manifest-count", c.cfg.kind), format!("k={}: direct sign reports {} manifests, restored builder's sign {}", c.cfg.k, nm(&direct.report), nm(&after.report))));
+        } else if direct.state != after.state || direct.codes.iter().filter(|x| x.1 != "success").collect::<Vec<_>>() != after.codes.iter().filter(|x| x.1 != "success").collect::<Vec<_>>() {
+            // (success codes merely echo which assertions exist, e.g. the copied thumbnail)
+            viols.push((format!("{}|fixture-ingredient|validation-codes", c.cfg.kind), format!("state {} vs {}; codes only in direct {:?}; only in restored {:?}", direct.state, after.state, direct.codes.iter().filter(|x| !after.codes.contains(x)).collect::<Vec<_>>(), after.codes.iter().filter(|x| !direct.codes.contains(x)).collect::<Vec<_>>())));
+        }
+    } else if direct.report != after.report {
         let d = report::diff_paths(&direct.report, &after.report, 60);
         let mut classes: BTreeMap<String, String> = BTreeMap::new();
         let mut derivative: BTreeMap<String, String> = BTreeMap::new();
@@ -399,7 +411,14 @@ fn main() {
         "legacy ZIP archives are written by the harness (manifest.json = serde JSON of the Builder); only definitions without ingredients; both sides use the default Context because the ZIP restore path drops the caller's context (directed case zipctx)".into(),
     ];
     let assets_v: Vec<assets::Asset> = assets::tiny_assets();
-    let pool = defgen::ingredient_pool();
+    let mut pool = defgen::ingredient_pool();
+    // repository fixtures whose stores hold ingredient chains recorded by older producers (v1/v2 ingredient
+    // assertions that reference the nested manifest through the legacy `c2pa_manifest` field)
+    for f in ["ocsp.jpg", "CACA.jpg", "legacy_ingredient_hash.jpg", "CIE-sig-CA.jpg"] {
+        if let Some(b) = vmon::assets::fixture(f) {
+            pool.items.push(defgen::PoolItem { name: format!("fixture:{f}"), format: "jpg", bytes: b, signed: true, active_label: None, redactable: None, claim_v1: false });
+        }
+    }
     let mut rng = Rng::new(run.seed, "c22");
     let n = run.tier.pick(300usize, 5000usize);
     let mut cases = Vec::new();
@@ -455,6 +474,20 @@ fn main() {
         d.ingredients.push(defgen::GenIngredient { pool: unsigned_jpg, relationship: "componentOf".into(), title: Some("thumb unsigned".into()), label: Some("ing_1".into()) });
         cases.push(Case { def: d.clone(), cfg: cfg("jumbf", "tiny.png", true) });
         cases.push(Case { def: d, cfg: cfg("ingredient", "tiny.png", true) });
+        // (5) a version-1 claim through the archive
+        let mut d = plain(Intent::Create);
+        d.claim_version = Some(1);
+        d.cgi = vec![json!({"name": "verif", "version": "1.0"})];
+        cases.push(Case { def: d, cfg: cfg("jumbf", "tiny.png", false) });
+        // (6) fixture ingredients with nested manifests from older producers
+        for (pi, it) in pool.items.iter().enumerate() {
+            if it.name.starts_with("fixture:") {
+                let mut d = plain(Intent::Create);
+                d.ingredients.push(defgen::GenIngredient { pool: pi, relationship: "componentOf".into(), title: Some(it.name.clone()), label: Some("ing_f".into()) });
+                cases.push(Case { def: d.clone(), cfg: cfg("jumbf", "tiny.png", false) });
+                cases.push(Case { def: d, cfg: cfg("ingredient", "tiny.png", false) });
+            }
+        }
         // (3) hash_alg
         let mut d = plain(Intent::Create);
         d.hash_alg = Some("sha512".into());
